@@ -701,6 +701,9 @@ class Interp:
             if isinstance(a, Rat) and isinstance(b, Rat) and a.is_const() and b.is_const():
                 r = a == b
                 return r if isinstance(op, ast.Eq) else not r
+        if isinstance(op, (ast.Eq, ast.NotEq)) and isinstance(a, dict) and isinstance(b, dict):
+            r = a == b
+            return r if isinstance(op, ast.Eq) else not r
         if isinstance(op, (ast.In, ast.NotIn)) and isinstance(b, (list, tuple, dict, set)):
             r = a in b
             return r if isinstance(op, ast.In) else not r
@@ -1167,6 +1170,12 @@ class Interp:
         if isinstance(v, (Vec2, Field)) and k.get("axis") == 1:
             v = self.as_vec(v)
             return self.T.sqrt_of(v.x * v.x + v.y * v.y)
+        if isinstance(v, Cols) and k.get("axis") == 1:
+            tot = self.const(0)
+            for c in v.cols:
+                c = self.as_term(c)
+                tot = tot + c * c
+            return self.T.sqrt_of(tot)
         if isinstance(v, Rat) and k.get("axis") == 1:
             return self.T.app("rownorm", [v], sign="nonneg")
         raise Unsupported("np.linalg.norm outside the (n,2) axis=1 idiom")
@@ -1195,6 +1204,20 @@ class Interp:
         if all(isinstance(v, (int, Fr)) for v in vals):
             return min(vals)
         return self.T.app("min", [self.as_term(v) for v in vals])
+
+    def _fn1(name):
+        def h(self, a, k):
+            return self.T.app(name, [self.as_term(a[0])])
+        return h
+
+    x_numpy_arccos = _fn1("arccos")
+    x_numpy_sin = _fn1("sin")
+    x_numpy_cos = _fn1("cos")
+    x_scipy_special_ellipk = _fn1("ellipk")
+    x_scipy_special_ellipe = _fn1("ellipe")
+
+    def x_numpy_arctan2(self, a, k):
+        return self.T.app("arctan2", [self.as_term(a[0]), self.as_term(a[1])])
 
     def x_numpy_where(self, a, k):
         return (Opaque("where"),)
